@@ -483,7 +483,7 @@ pub fn finish(fin: Finish, acc: &Acc) -> i32 {
     eprintln!(
         "[{}{}] tier={} evaluations={} distinct_nontrivial={} outcomes={} violations={} wall={:.1}s",
         fin.property,
-        if variant.is_empty() { "" } else { " preserve_order build" },
+        if variant.is_empty() { "" } else { " feature-variant build (preserve_order, unicode, speedups, stacker)" },
         fin.tier.name(),
         evaluations,
         nontrivial,
